@@ -1,0 +1,8 @@
+//go:build verif
+
+// Contracts for the govc verifier (see /verif/DESIGN.md). Comment-only file.
+package rewards
+
+//@ func (*Reward).TotalEmissionBig
+//@   trusted
+//@   modifies nothing
